@@ -458,8 +458,12 @@ Definition parse_opt_value (o : arg) (count : N) : option pstate :=
 (** [parse_positional]; [None] = the [expect("built")] of [parse_opt_value] (line 673).
     (Before fix 8cf4a4e the [Opt] arm was [unreachable!]: finding D.) *)
 Definition parse_positional (c : cmd) (pos_index : N) (is_escaped : bool) (st : pstate) : option (pstate * N) :=
+  (* a positional that appends keeps accepting values (fix c6f4cbc) *)
   let num_args := match find_pos c pos_index with
-                  | Some a => match a_num a with Some r => vmax r | None => 1 end
+                  | Some a => match a_get_action a with
+                              | AAppend => usize_max
+                              | _ => match a_num a with Some r => vmax r | None => 1 end
+                              end
                   | None => 1 end in
   let update_state_with_new_positional :=
     if 1 <? num_args then (Pos pos_index 1, pos_index)
@@ -508,9 +512,11 @@ Definition shadow_step (arg : bytes) (cur : cmd) (pos_index : N) (is_escaped : b
     | Some (st, pi) => SNext cur pi is_escaped st
     | None => SPanic 673
     end in
-  (* like the real parser, a value of a pending option is not a subcommand (fix 689b619) *)
+  (* like the real parser, a value of a pending option or of a positional that is still being
+     filled is not a subcommand (fixes 689b619, c6f4cbc) *)
   let maybe_subcommand :=
-    is_set s_sub_precedence cur || negb (match current_state with Opt _ _ => true | _ => false end) in
+    is_set s_sub_precedence cur
+    || negb (match current_state with Opt _ _ | Pos _ _ => true | ValueDone => false end) in
   match (if maybe_subcommand && utf8_valid arg then find_subcommand cur arg else None) with
   | Some next_cmd => SNext next_cmd 1 is_escaped ValueDone
   | None =>
